@@ -115,6 +115,14 @@ CHECKS = {
         "Bound: 23 positions, 68 expressions, kernel strings <=5 (quick) / 6 (thorough) tokens over 11 kinds. Expected tokens come from lexing the expression alone with the real lexer (lexing is C08).",
         "DESIGN.md 3/C14",
     ),
+    "C12": (
+        "model_checking",
+        "CrossHair (z3): inductive inter-declaration step on the real parser with a symbolic anon_id from enclosing states reached through the public API; exhaustive CrossHair exploration of ordered pairs of a 42-form pool (28-form member pool) in 4 (3) contexts against an identity-aware merge, and of 8 scope equivalences",
+        "Inductive step: for every pool form in every context and ALL anon_id values, the state object and visitor are restored, no token is pending, anon_id grew by exactly the number of anonymous types and all emitted ids lie in (anon_id, anon_id+k] - so nothing is retained between declarations and concatenations of any length compose. "
+        "Pairs / equivalences: every ordered pair and every (equivalence, form) is parsed by the real parser and compared; 'Confirmed over all paths' = exhausted.",
+        "Bound: the pools in vf/props/c12.py; pairs only (longer sequences through the inductive argument). parser.current_namespace is written but never read by the parser and is not asserted.",
+        "DESIGN.md 3/C12",
+    ),
 }
 
 NOT_YET = "no check landed yet in this build (planned engine and bounds: DESIGN.md section 3); not claimed until the check runs green"
